@@ -20,7 +20,7 @@ class Contract:
                  raises=(), locals=None, loops=None, defn=None, modifies=(), kind="function",
                  status="verify", impl_of=None, self_guard=None, defaults=None, ensures_on_raise=(),
                  attrs=None, is_lemma=False, note="", total=None, properties=(), inline=False, use_at_end=(), opaque=(),
-                 aliases_ok=(), use_at_start=(), cases=(), view=None, pure=False):
+                 aliases_ok=(), use_at_start=(), cases=(), view=None, pure=False, payloads=None):
         self.key = key
         self.module = module
         self.qualname = qualname or key
@@ -50,6 +50,7 @@ class Contract:
         self.aliases_ok = set(aliases_ok)
         self.use_at_start = list(use_at_start)
         self.cases = list(cases)              # Boolean parameter fields to split on (verified once per valuation)
+        self.payloads = payloads or {}        # exception name -> spec expression of the message (args[0]) of the raised exception
         self.pure = pure                      # result is a function of the arguments: every call denotes the same uninterpreted application
         self.view = view                      # None: names opaque; 'string': names are strings (PYVC_NODE=str)
 
@@ -761,7 +762,15 @@ class Registry:
                 s_r = st.fork()
                 s_r.assume(t)
                 if feasible(s_r):
-                    eng.do_raise(s_r, exc, lineno)
+                    payload = None
+                    if exc in c.payloads:
+                        saved_ = eng.spec
+                        eng.spec = True
+                        try:
+                            payload = eng.ev1(self.parse_spec(c.payloads[exc]), cs)
+                        finally:
+                            eng.spec = saved_
+                    eng.do_raise(s_r, exc, lineno, payload)
             for t in conds:
                 st.assume(znot(t))
             # mutation frame
